@@ -21,6 +21,7 @@ package main
 // scenario the same (type, id) is the same object.
 
 import (
+	"encoding/json"
 	"errors"
 	"fmt"
 	"math"
@@ -115,6 +116,8 @@ var (
 		"error": errorType, "Result": resultType, "ErrStr": errStrType,
 		"MyErr": reflect.TypeOf(MyErr{}), "MyNCErr": reflect.TypeOf(MyNCErr{}), "MyStrErr": reflect.TypeOf(MyStrErr("")),
 		"MyRes": reflect.TypeOf(MyRes{}),
+		// a string-kinded type of the standard library that LOOKS like a number (encoding/json.Number): not a documented source type
+		"JNumber": reflect.TypeOf(json.Number("")),
 	}
 	// underlying type codes of the named types (used by the generator only)
 	namedUnder = map[string]string{
@@ -125,7 +128,7 @@ var (
 		"MyInt16": "int16", "MyInt32": "int32", "MyInt64": "int64", "MyUint": "uint", "MyUint8": "uint8", "MyUint32": "uint32",
 		"MyUint64": "uint64", "MyUintptr": "uintptr", "MyComplex64": "complex64", "MyComplex128": "complex128",
 		"error": "any", "Result": "R(any,@error)", "ErrStr": "R(string)",
-		"MyErr": "R(int)", "MyNCErr": "R(S(string))", "MyStrErr": "string", "MyRes": "R(any,@error)",
+		"MyErr": "R(int)", "MyNCErr": "R(S(string))", "MyStrErr": "string", "MyRes": "R(any,@error)", "JNumber": "string",
 	}
 	funcSigs = []reflect.Type{
 		reflect.TypeOf(func() {}),
